@@ -58,6 +58,10 @@ def variants(st0, tier):
     out.append(('far', lambda: st0.build().translated(tuple([500.3, -300.7, 200.1][:dim]))))
     if st0.kind != 'wedge':
         out.append(('refined', lambda: st0.build().refined()))
+    if st0.kind not in ('wedge', 'line'):
+        # many long thin cells: the cells with the nearest centroids do not contain the point, the exhaustive fallback of the
+        # finders has to find it (in every cell, the last one included)
+        out.append(('refined-stretched', lambda: st0.build().refined().scaled(tuple([1., 64., 1.][:dim]))))
     if st0.kind in ('line', 'tri', 'tet'):
         out.append(('adaptive', lambda: st0.build().refined(np.array([0])).refined(np.array([0, 1]))))
     if tier == 'thorough' and st0.kind in ('line', 'tri', 'quad'):
